@@ -140,6 +140,7 @@ type Machine struct {
 	cacheHits int
 
 	hangLimit   int
+	quietFS     bool
 	mainProc    int
 	ifPos       token.Pos
 	callPos     token.Pos
